@@ -87,6 +87,8 @@ type c10DetHarness struct {
 	conf     map[string]uint64
 	unstable bool
 	panicMsg string
+	// results of sweep()
+	sweepDisagrees, notNested, twoDiffer bool
 }
 
 func (h *c10DetHarness) Reset(init map[string]any) error {
@@ -106,6 +108,7 @@ func (h *c10DetHarness) Reset(init map[string]any) error {
 	h.conf = map[string]uint64{}
 	h.unstable = false
 	h.panicMsg = ""
+	h.sweepDisagrees, h.notNested, h.twoDiffer = false, false, false
 	return nil
 }
 
@@ -145,10 +148,49 @@ func (h *c10DetHarness) Apply(a map[string]any) error {
 				h.unstable = true
 			}
 		}
+		h.sweep()
 	default:
 		return fmt.Errorf("unknown action %v", a)
 	}
 	return nil
+}
+
+// sweep asks fresh instances at every rate of the real table (and rate 1) about
+// this walk's trace ID: agreement with the independent computation, nesting,
+// and agreement of two nodes. Run by the Decide action; the flags are sticky.
+func (h *c10DetHarness) sweep() {
+	rates, err := c10DetSpace.TableRates(h.model, h.table)
+	if err != nil {
+		h.panicMsg = err.Error()
+		return
+	}
+	dropped := false
+	for _, r := range append([]uint64{1}, rates...) {
+		s1, e1 := c10DetNew(r)
+		s2, e2 := c10DetNew(r)
+		if e1 != nil || e2 != nil {
+			h.panicMsg = fmt.Sprint(e1, e2)
+			return
+		}
+		a1, e1 := c10DetAsk(s1, h.id)
+		a2, e2 := c10DetAsk(s2, h.id)
+		if e1 != nil || e2 != nil {
+			h.panicMsg = fmt.Sprint(e1, e2)
+			return
+		}
+		if a1 != a2 {
+			h.twoDiffer = true
+		}
+		if a1.keep && dropped {
+			h.notNested = true
+		}
+		if !a1.keep {
+			dropped = true
+		}
+		if a1.keep != c10DetSpace.Expected(r, h.id) {
+			h.sweepDisagrees = true
+		}
+	}
 }
 
 func (h *c10DetHarness) modelRate(r uint) int {
@@ -184,43 +226,10 @@ func (h *c10DetHarness) Project() (any, error) {
 			agrees = false
 		}
 	}
-	// the whole real rate table, fresh instances: nesting and agreement of two nodes
-	nested, two := true, true
-	rates, err := c10DetSpace.TableRates(h.model, h.table)
-	if err != nil {
-		return nil, err
-	}
-	dropped := false
-	for _, r := range append([]uint64{1}, rates...) {
-		s1, e1 := c10DetNew(r)
-		s2, e2 := c10DetNew(r)
-		if e1 != nil || e2 != nil {
-			h.panicMsg = fmt.Sprint(e1, e2)
-			break
-		}
-		a1, e1 := c10DetAsk(s1, h.id)
-		a2, e2 := c10DetAsk(s2, h.id)
-		if e1 != nil || e2 != nil {
-			h.panicMsg = fmt.Sprint(e1, e2)
-			break
-		}
-		if a1 != a2 {
-			two = false
-		}
-		if a1.keep && dropped {
-			nested = false
-		}
-		if !a1.keep {
-			dropped = true
-		}
-		if a1.keep != c10DetSpace.Expected(r, h.id) {
-			agrees = false
-		}
-	}
 	out["ans"] = ans
-	out["agrees"] = agrees
-	out["nested"] = nested
-	out["twoInstancesAgree"] = two
+	out["agrees"] = agrees && !h.sweepDisagrees
+	out["nested"] = !h.notNested
+	out["twoInstancesAgree"] = !h.twoDiffer
 	out["repeatable"] = !h.unstable
 	if h.panicMsg != "" {
 		out["panic"] = h.panicMsg
